@@ -303,7 +303,7 @@ BindGranted(st, a) == SrvOK(a.s, a.ft) /\ CliOK(st, a.p, a.c, a.ft) /\ ~\E b \in
 CallRes(a, ok) == OutTo(a.p, IF ok THEN Ack(a, "NM", "nm") ELSE {ResErr("NM", "nm")})
 
 SubOut(st, a) ==
-    IF ~Discovered(st, a.p) THEN { Outcome(st, NoOut, {}, "ok", Ideal) }
+    IF a.p \notin st.conn THEN { Outcome(st, NoOut, {}, "ok", Ideal) }
     ELSE IF SubGranted(st, a)
     THEN { Outcome([st EXCEPT !.subs = @ \cup {Entry(a.p, a.c, a.s)}, !.nsub = Ghost(@)], CallRes(a, TRUE),
                    {Ev("sub", "add", a.p, "", a.c, a.s)}, "ok", Ideal) }
@@ -356,14 +356,17 @@ WriteGate(st, a) == FnWritable(a.s, a.fn) /\ Entry(a.p, a.c, a.s) \in st.binds
 Fanout(st, s, fn, v) == [q \in Peers |-> {Notify(s, x.c, fn, v) : x \in {y \in st.subs : y.p = q /\ y.s = s}}]
 Merge2(o1, o2) == [q \in Peers |-> o1[q] \cup o2[q]]
 
-\* a = [a |-> "write", p, c, s, fn, v, ack]
+\* a = [a |-> "write", p, c, s, fn, v, ack, hdev]   (hdev: the device part of the header's source address given or
+\* omitted - it is optional, the writer is the feature of the connection the datagram came in on; the response goes to
+\* the source address as given)
+WDst(a) == IF a.hdev = "omit" THEN a.c \o "@nodev" ELSE a.c
 WriteOut(st, a) ==
     IF ~RKnown(st, a.p, a.c) THEN { Outcome(st, NoOut, {}, "ok", Ideal) }  \* not an announced feature: dropped
     ELSE IF WriteGate(st, a) /\ Cell(a.s, a.fn) \in Cells
     THEN { Outcome([st EXCEPT !.data[Cell(a.s, a.fn)] = a.v],
-                   Merge2(Fanout(st, a.s, a.fn, a.v), OutTo(a.p, Ack(a, a.s, a.c))),
+                   Merge2(Fanout(st, a.s, a.fn, a.v), OutTo(a.p, Ack(a, a.s, WDst(a)))),
                    {Ev("data", "write", a.p, "", a.c, a.s)}, "ok", Ideal) }
-    ELSE { Outcome(st, OutTo(a.p, {ResErr(IF a.s \in LocalNames THEN a.s ELSE a.s, a.c)}), {}, "ok", Ideal) }
+    ELSE { Outcome(st, OutTo(a.p, {ResErr(IF a.s \in LocalNames THEN a.s ELSE a.s, WDst(a))}), {}, "ok", Ideal) }
 
 \* local application changes data: a = [a |-> "setdata", s, fn, v]
 SetDataOut(st, a) ==
@@ -404,7 +407,7 @@ RecvOut0(st, a) ==
     IF ~RKnown(st, p, c) THEN nothing
     ELSE IF a.cls = "result" THEN
          \* never any result in answer to a result; the callbacks of the addressed feature fire
-         IF s \in LocalNames
+         IF s \in LocalNames /\ a.pl \in ResultPls
          THEN { WithCbf(Outcome(Consume(st, s, a.ref), NoOut, {}, "ok", Ideal), RespFired(st, s, a.ref) \cup ResFired(st, s, a.ref)) }
          ELSE nothing
     ELSE IF s \notin LocalNames THEN err
@@ -438,7 +441,7 @@ RecvOut0(st, a) ==
          ELSE err
     ELSE \* write: the gate of C03 (no local function is writable through these payloads unless bound)
          IF a.pl \in DataFns
-         THEN WriteOut(st, [a |-> "write", p |-> p, c |-> c, s |-> s, fn |-> a.pl, v |-> a.v, ack |-> a.ack])
+         THEN WriteOut(st, [a |-> "write", p |-> p, c |-> c, s |-> s, fn |-> a.pl, v |-> a.v, ack |-> a.ack, hdev |-> "own"])
          ELSE err
 
 RecvOut(st, a) == {[o EXCEPT !.st = Answered(@, a)] : o \in RecvOut0(st, a)}
@@ -563,11 +566,12 @@ DelCallsF(st, kind) ==
 
 \* fel: the optional cmd "function" element: absent, naming the payload's function, or naming another one (ofn)
 WriteArgs(st) ==
-    {[a |-> "write", p |-> p, c |-> c, s |-> s, fn |-> fn, v |-> v, ack |-> k, fel |-> fe, ofn |-> IF fn = "limit" THEN "ldesc" ELSE "limit"] :
+    {[a |-> "write", p |-> p, c |-> c, s |-> s, fn |-> fn, v |-> v, ack |-> k, fel |-> fe, ofn |-> IF fn = "limit" THEN "ldesc" ELSE "limit", hdev |-> hd] :
         p \in DiscP(st), c \in (IF R("write") THEN {"c11", "c12", "c13", "c21", "x19"} ELSE {"c11", "c12"}),
         s \in (IF R("write") THEN {"S1", "S2", "S3", "S4", "K1", "X19"} ELSE {"S1", "S2"}),
         fn \in {"limit", "ldesc", "kv"}, v \in Vals, k \in Acks("write"),
-        fe \in (IF R("write") THEN {"none", "same", "other"} ELSE {"none"})}
+        fe \in (IF R("write") THEN {"none", "same", "other"} ELSE {"none"}),
+        hd \in (IF R("write") THEN {"own", "omit"} ELSE {"own"})}
 WriteArgsF(st) == {x \in WriteArgs(st) :
                      /\ IF x.s \in LocalNames THEN x.fn \in TypeFns[LF[x.s].type] ELSE x.fn = "limit"
                      /\ x.fel = "other" => x.fn \in {"limit", "ldesc"}}
@@ -600,6 +604,9 @@ Inputs(st) ==
                                   it \in AnnItemSeqs(kd), d \in DevVar("ann"), k \in Acks("ann")}
                                : p \in st.conn, kd \in {"reply", "partial", "full"}})
     \cup On("sub",    RegCallsF(st, "sub"))
+    \* (the peer's node management may subscribe to ours before its discovery reply has been processed)
+    \cup On("presub", {[a |-> "sub", p |-> p, c |-> "nm", s |-> "NM", ft |-> "NodeManagement", dev |-> d, sdev |-> "own", ack |-> TRUE] :
+                          p \in st.conn \ DiscP(st), d \in {"own", "omit"}})
     \cup On("bind",   RegCallsF(st, "bind"))
     \cup On("unsub",  DelCallsF(st, "unsub"))
     \cup On("unbind", DelCallsF(st, "unbind"))
@@ -620,7 +627,8 @@ Inputs(st) ==
                          pl \in (IF R("recv") THEN {"limit", "ldesc", "kv", "mfr", "res0", "res1", "usecase", "subdata", "binddata", "destlist", "discovery"}
                                   ELSE {"limit", "kv", "res0", "res1", "usecase", "subdata"}),
                          k \in BOOLEAN} :
-                       /\ (x.cls = "result") = (x.pl \in ResultPls)
+                       \* (rich: a result is never answered whatever it carries; a request that carries result data stays outside)
+                       /\ (IF R("recv") THEN (x.pl \in ResultPls => x.cls = "result") ELSE (x.cls = "result") = (x.pl \in ResultPls))
                        /\ ~(x.pl = "discovery" /\ x.cls \in {"reply", "notify"})})
     \* C14: requests, callback registrations, and replies / results from s14 or c11 to K1 / S1 / K2-less
     \cup On("lreq",   {[a |-> "lreq", k |-> "K1", p |-> p] : p \in {q \in DiscP(st) : st.nid < MaxReq \/ st.unans[q] # 0}})
@@ -685,7 +693,7 @@ ReadReplyXorError(st, a, o) ==
 \* C01: every response references the request, goes to its source and names the addressed feature
 ResponseAddressing(st, a, o) ==
     a.a \in {"recv", "read", "write"} =>
-        \A d \in Responses(o, a.p) : d.ref = "req" /\ d.dst = a.c /\ d.src = a.s
+        \A d \in Responses(o, a.p) : d.ref = "req" /\ d.dst = (IF a.a = "write" THEN WDst(a) ELSE a.c) /\ d.src = a.s
 
 \* C14: callbacks fire at most once per step, only for the addressed feature and the referenced id, and only for an
 \* accepted reply or a result; response callbacks are consumed
@@ -693,7 +701,7 @@ CallbacksExact(st, a, o) ==
     /\ \A f \in o.cbf : /\ a.a = "recv" /\ f.k = a.s /\ f.h = a.ref /\ a.cls \in {"reply", "result"}
                          /\ (f.kind = "resp" => [k |-> f.k, h |-> f.h, cb |-> f.cb] \in st.cbs /\ [k |-> f.k, h |-> f.h, cb |-> f.cb] \notin o.st.cbs)
                          /\ (f.kind = "res" => a.cls = "result" /\ [k |-> f.k, cb |-> f.cb] \in st.rcbs)
-    /\ (a.a = "recv" /\ a.cls = "result" /\ a.s \in LocalNames /\ RKnown(st, a.p, a.c)) =>
+    /\ (a.a = "recv" /\ a.cls = "result" /\ a.pl \in ResultPls /\ a.s \in LocalNames /\ RKnown(st, a.p, a.c)) =>
             \A x \in st.rcbs : x.k = a.s => [k |-> x.k, cb |-> x.cb, kind |-> "res", h |-> a.ref, good |-> TRUE] \in o.cbf
     /\ o.st.cbs \subseteq st.cbs \cup (IF a.a = "addcb" THEN {[k |-> a.k, h |-> a.h, cb |-> a.cb]} ELSE {})
 
@@ -712,7 +720,7 @@ WriteEffectOnlyIfGate(st, a, o) ==
         /\ o.st.data = st.data
         /\ \A q \in Peers : OutKinds(o, q, "notify") = {}
         /\ o.ev = {}
-        /\ (RKnown(st, a.p, a.c) => o.out[a.p] = {ResErr(a.s, a.c)})
+        /\ (RKnown(st, a.p, a.c) => o.out[a.p] = {ResErr(a.s, WDst(a))})
 WriteAppliedIfGate(st, a, o) ==
     (a.a = "write" /\ WriteGate(st, a) /\ RKnown(st, a.p, a.c) /\ Cell(a.s, a.fn) \in Cells) =>
         /\ o.st.data[Cell(a.s, a.fn)] = a.v
